@@ -614,59 +614,150 @@ example : deserPanics (.vec (.scalar .i32)) (.native .int) = true ∧
 example : typedIterNew (.cols [.scalar .i32, .scalar .str]) [.native .int, .native .blob] 1000
     = .error ⟨[.col 1], .mismatchedType⟩ := by rfl
 
-/-! ### the pager's typed stream: every page is checked against ITS OWN metadata -/
+/-! ### the pager's typed stream: every page is checked against ITS OWN metadata
 
-/-- **Every yielded row belongs to a page that passed `type_check` against that page's metadata** — whatever the
-pages' column specs are (all different, changing back and forth, with zero-sized pages in between), for every
-row type (`check` is its `type_check`).  And a type-check error is only ever reported for a page that does not
-fit.  (The flag `current_page_typechecked` is reset by every freshly fetched page; were it reset only for SOME
-fresh pages, rows of an unchecked page would be deserialized — reinterpreted — with the previous page's verdict.)
-The items are those of a consumer that keeps polling THROUGH error items to the end of the stream: after a refused
-row the flag stays unset, so every remaining row of that page is checked — and refused — again (were the flag set
-before the check succeeds, the rows after the first refused one would be deserialized unchecked); later pages that
-fit are delivered again. -/
+`stickyRaws`: the raw row iterator cannot recover within a page (once a row is unreadable every later announced row
+of that page is) — a fact about `RawRowLendingIterator` proved in C08 (`iterRows_after_error`,
+`lending_iterator_is_plain_iterator`; `Props/C17Raw.lean` derives `stickyRaws` from them). -/
+
+open ScyllaVerif.Proofs.PagerStream (typedStream_spec streamSpec_length streamSpec_mem untilFirstError_mem)
+
+/-- **The typed stream IS its specification**: whatever the pages' column specs are (all different, changing back
+and forth, zero-sized pages in between, truncated pages), for every row type (`check` is its `type_check`) and a
+consumer that keeps polling through error items, the items are EXACTLY: page by page in order, one item per
+announced row — the row iff it is readable and ITS PAGE'S OWN columns pass the check, a type-check error iff it is
+readable and they do not, a row-deserialization error iff it is unreadable.  In particular every row of a
+non-fitting page is an error item (also the rows after the first refused one: the flag is set only AFTER a
+successful check), later fitting pages are delivered again, and nothing is lost or duplicated. -/
+theorem typed_stream_is_spec (check : List (String × CqlTy) → Bool) (pages : List PageM) (outs : List StreamOut)
+    (hs : ∀ p, p ∈ pages → stickyRaws p.raws = true) (h : typedStream check pages = some outs) :
+    outs = streamSpec check 0 pages := typedStream_spec check pages outs hs h
+
+/-- One item per announced row. -/
+theorem typedStream_len (check : List (String × CqlTy) → Bool) (pages : List PageM) (outs : List StreamOut)
+    (hs : ∀ p, p ∈ pages → stickyRaws p.raws = true) (h : typedStream check pages = some outs) :
+    outs.length = (pages.map PageM.rows).sum := by
+  rw [typed_stream_is_spec check pages outs hs h, streamSpec_length]
+
+/-- **Every yielded row belongs to a page that passed `type_check` against that page's metadata**, and a
+type-check error is only ever reported for a page that does not fit. -/
 theorem stream_rows_checked (check : List (String × CqlTy) → Bool) (pages : List PageM) (outs : List StreamOut)
-    (h : typedStream check pages = some outs) :
+    (hs : ∀ p, p ∈ pages → stickyRaws p.raws = true) (h : typedStream check pages = some outs) :
     (∀ i, StreamOut.row i ∈ outs → ∃ p, pages[i]? = some p ∧ check p.specs = true) ∧
     (∀ i, StreamOut.typeErr i ∈ outs → ∃ p, pages[i]? = some p ∧ check p.specs = false) := by
+  rw [typed_stream_is_spec check pages outs hs h]
   constructor <;> intro i hi
-  · obtain ⟨k, p, hp, hok⟩ := ScyllaVerif.Proofs.PagerStream.typedStream_ok check pages outs h _ hi
-    rcases hok with ⟨he, hc⟩ | ⟨he, _⟩
-    · cases he; exact ⟨p, hp, hc⟩
-    · cases he
-  · obtain ⟨k, p, hp, hok⟩ := ScyllaVerif.Proofs.PagerStream.typedStream_ok check pages outs h _ hi
-    rcases hok with ⟨he, _⟩ | ⟨he, hc⟩
-    · cases he
-    · cases he; exact ⟨p, hp, hc⟩
+  · obtain ⟨k, p, b, hp, _, ho⟩ := streamSpec_mem check pages 0 _ hi
+    cases b <;> cases hc : check p.specs <;> simp [itemOf, hc] at ho
+    subst ho; exact ⟨p, hp, hc⟩
+  · obtain ⟨k, p, b, hp, _, ho⟩ := streamSpec_mem check pages 0 _ hi
+    cases b <;> cases hc : check p.specs <;> simp [itemOf, hc] at ho
+    subst ho; exact ⟨p, hp, hc⟩
 
 /-- The same for a consumer that stops at the first error item (it sees a prefix of those items). -/
 theorem stream_rows_checked_until_error (check : List (String × CqlTy) → Bool) (pages : List PageM)
-    (outs : List StreamOut) (h : typedStream check pages = some outs) (i : Nat)
+    (outs : List StreamOut) (hs : ∀ p, p ∈ pages → stickyRaws p.raws = true)
+    (h : typedStream check pages = some outs) (i : Nat)
     (hi : StreamOut.row i ∈ untilFirstError outs) : ∃ p, pages[i]? = some p ∧ check p.specs = true :=
-  (stream_rows_checked check pages outs h).1 i (ScyllaVerif.Proofs.PagerStream.untilFirstError_mem _ _ hi)
+  (stream_rows_checked check pages outs hs h).1 i (untilFirstError_mem _ _ hi)
 
-/-- A page that does not fit yields NO row, however many rows it has and however long the consumer keeps polling:
-each of its rows is an error item. -/
+/-- A page that does not fit yields NO row, however many rows it has and however long the consumer keeps polling. -/
 theorem nonfitting_page_yields_no_row (check : List (String × CqlTy) → Bool) (pages : List PageM)
-    (outs : List StreamOut) (h : typedStream check pages = some outs) (i : Nat) (p : PageM)
+    (outs : List StreamOut) (hs : ∀ p, p ∈ pages → stickyRaws p.raws = true)
+    (h : typedStream check pages = some outs) (i : Nat) (p : PageM)
     (hp : pages[i]? = some p) (hbad : check p.specs = false) : StreamOut.row i ∉ outs := by
   intro hi
-  obtain ⟨q, hq, hc⟩ := (stream_rows_checked check pages outs h).1 i hi
+  obtain ⟨q, hq, hc⟩ := (stream_rows_checked check pages outs hs h).1 i hi
   rw [hp] at hq; cases hq
   rw [hbad] at hc; cases hc
+
+private theorem itemOf_index (ok : Bool) (j m : Nat) (b : Bool) (o : Nat → StreamOut)
+    (ho : o = .row ∨ o = .typeErr ∨ o = .rawErr) (h : o m = itemOf ok j b) : m = j := by
+  rcases ho with rfl | rfl | rfl <;> cases b <;> cases ok <;> simp [itemOf] at h <;> exact h
+
+/-- **Per-page counts** (what the membership statements alone do not give): the items about page `i` are exactly as
+many as it announced rows — `p.rows` rows if it fits and is intact, `p.rows` type-check errors if it does not fit. -/
+theorem stream_page_counts (check : List (String × CqlTy) → Bool) : ∀ (ps : List PageM) (j k : Nat) (p : PageM),
+    ps[k]? = some p →
+    (streamSpec check j ps).count (.row (j + k)) = (if check p.specs then p.raws.count true else 0) ∧
+    (streamSpec check j ps).count (.typeErr (j + k)) = (if check p.specs then 0 else p.raws.count true) ∧
+    (streamSpec check j ps).count (.rawErr (j + k)) = p.raws.count false
+  | [], _, _, _, h => by simp at h
+  | q :: ps, j, k, p, h => by
+    have hother : ∀ (o : Nat → StreamOut) (m : Nat), (o = .row ∨ o = .typeErr ∨ o = .rawErr) → m ≠ j →
+        (q.raws.map (itemOf (check q.specs) j)).count (o m) = 0 := by
+      intro o m ho hm
+      rw [List.count_eq_zero]
+      intro hmem
+      obtain ⟨b, _, hb⟩ := List.mem_map.mp hmem
+      exact hm (itemOf_index _ j m b o ho hb.symm)
+    have hlater : ∀ (o : Nat → StreamOut), (o = .row ∨ o = .typeErr ∨ o = .rawErr) →
+        (streamSpec check (j + 1) ps).count (o j) = 0 := by
+      intro o ho
+      rw [List.count_eq_zero]
+      intro hmem
+      obtain ⟨k', p', b, _, _, hb⟩ := streamSpec_mem check ps (j + 1) _ hmem
+      have := itemOf_index _ (j + 1 + k') j b o ho hb
+      omega
+    rw [streamSpec]
+    simp only [List.count_append]
+    cases k with
+    | zero =>
+      simp only [List.getElem?_cons_zero, Option.some.injEq] at h
+      subst h
+      simp only [Nat.add_zero, hlater _ (.inl rfl), hlater _ (.inr (.inl rfl)), hlater _ (.inr (.inr rfl))]
+      have hcount : ∀ (rs : List Bool),
+          (rs.map (itemOf (check q.specs) j)).count (.row j) = (if check q.specs then rs.count true else 0) ∧
+          (rs.map (itemOf (check q.specs) j)).count (.typeErr j) = (if check q.specs then 0 else rs.count true) ∧
+          (rs.map (itemOf (check q.specs) j)).count (.rawErr j) = rs.count false := by
+        intro rs
+        induction rs with
+        | nil => cases check q.specs <;> simp
+        | cons r rs ih =>
+          cases r <;> cases hc : check q.specs <;> simp [itemOf, hc, List.count_cons] at ih ⊢ <;> omega
+      simpa using hcount q.raws
+    | succ k =>
+      have h' : ps[k]? = some p := by simpa using h
+      have ih := stream_page_counts check ps (j + 1) k p h'
+      have hj : j + (k + 1) = j + 1 + k := by omega
+      have hne : j + 1 + k ≠ j := by omega
+      rw [hj, hother _ _ (.inl rfl) hne, hother _ _ (.inr (.inl rfl)) hne, hother _ _ (.inr (.inr rfl)) hne]
+      simpa using ih
 
 /-- The constructor refuses a first page that does not fit: no stream, no row. -/
 theorem stream_ctor_refuses (check : List (String × CqlTy) → Bool) (p : PageM) (ps : List PageM)
     (h : check p.specs = false) : typedStream check (p :: ps) = none := by
   simp [typedStream, h]
 
+/-- **The raw-row-error arm** (pager.rs:726-731): an unreadable row skips the closure of `poll_next`, so the
+`fresh_page` bit of a freshly fetched page is LOST and the flag keeps the previous page's verdict.  It is harmless
+only because the raw iterator is sticky: after an unreadable row no row of that page is ever readable, hence none is
+decoded — whatever the flag says.  Without stickiness the arm WOULD let an unchecked row through (second conjunct:
+the counterexample the model exhibits). -/
+theorem raw_error_then_no_row_decoded (ok : Bool) (i : Nat) (rs : List Bool) (fresh flag : Bool)
+    (hs : stickyRaws (false :: rs) = true) :
+    ∀ o, o ∈ (pageRows ok i (false :: rs) fresh flag).1 → o = .rawErr i := by
+  have hall : (false :: rs).all (· == false) = true := by
+    simp only [stickyRaws] at hs; simp only [List.all_cons, hs]; rfl
+  rw [ScyllaVerif.Proofs.PagerStream.pageRows_all_bad ok i _ fresh flag hall]
+  intro o ho
+  obtain ⟨b, hb, rfl⟩ := List.mem_map.mp ho
+  have : b = false := by
+    have := List.all_eq_true.mp hall b hb
+    simpa using this
+  subst this; rfl
+
+example : (pageRows false 1 [false, true] true true).1 = [.rawErr 1, .row 1] ∧ stickyRaws [false, true] = false := by
+  decide
+
 /-- … and the same for every row the pager's typed stream yields: it belongs to a page whose own columns passed
 the check (`stream_rows_checked`), hence decoding it cannot panic on shape. -/
 theorem stream_row_never_panics (cs : List Carrier) (pages : List PageM) (outs : List StreamOut)
+    (hs : ∀ p, p ∈ pages → stickyRaws p.raws = true)
     (h : typedStream (fun specs => (tcheckRow (.cols cs) (specs.map (·.2))).isNone) pages = some outs)
     (i : Nat) (hi : StreamOut.row i ∈ outs) :
     ∃ p, pages[i]? = some p ∧ rowDecodePanics (.cols cs) (p.specs.map (·.2)) = false := by
-  obtain ⟨p, hp, hc⟩ := (stream_rows_checked _ pages outs h).1 i hi
+  obtain ⟨p, hp, hc⟩ := (stream_rows_checked _ pages outs hs h).1 i hi
   refine ⟨p, hp, ?_⟩
   have hnone : tcheckRow (.cols cs) (p.specs.map (·.2)) = none := by
     cases hh : tcheckRow (.cols cs) (p.specs.map (·.2)) with
@@ -675,15 +766,17 @@ theorem stream_row_never_panics (cs : List Carrier) (pages : List PageM) (outs :
   obtain ⟨hl, hz⟩ := (row_typecheck_iff cs _).mp hnone
   simp [rowDecodePanics, hl, ScyllaVerif.Proofs.CarrierTc.acceptedZip_no_panic cs _ hz]
 
-/-- Non-vacuity, the shape of the missed seeded change: page 0 `[pk int, v bigint]`, page 1 `[pk int, v double]`
-under a stream typed `(i32, i64)`: the two rows of page 0, then one type-check error PER ROW of the non-fitting
-page (never one of its rows, also not after the first error), then the row of the fitting page that follows. -/
+/-- Non-vacuity, the shapes of the missed seeded changes: page 0 `[pk int, v bigint]` ×2, a zero-sized page, page 2
+`[pk int, v double]` ×3 whose LAST row is truncated, page 3 fitting again, under a stream typed `(i32, i64)`: the two
+rows of page 0, a type-check error per readable row of the non-fitting page (never one of its rows, also not after
+the first error), the row error, then the row of the fitting page that follows. -/
 example :
     let check := fun (specs : List (String × CqlTy)) =>
       (tcheckRow (.cols [.scalar .i32, .scalar .i64]) (specs.map (·.2))).isNone
-    typedStream check [⟨[("pk", .native .int), ("v", .native .bigint)], 2⟩, ⟨[], 0⟩,
-      ⟨[("pk", .native .int), ("v", .native .double)], 3⟩, ⟨[("pk", .native .int), ("v", .native .bigint)], 1⟩]
-      = some [.row 0, .row 0, .typeErr 2, .typeErr 2, .typeErr 2, .row 3] := by
+    typedStream check [PageM.intact [("pk", .native .int), ("v", .native .bigint)] 2, PageM.intact [] 0,
+      ⟨[("pk", .native .int), ("v", .native .double)], [true, true, false]⟩,
+      PageM.intact [("pk", .native .int), ("v", .native .bigint)] 1]
+      = some [.row 0, .row 0, .typeErr 2, .typeErr 2, .rawErr 2, .row 3] := by
   decide
 
 /-- On read, sets are not lists and tuples need the exact arity; on write they do not (non-vacuity of the
@@ -1038,6 +1131,79 @@ example :
       = .error (.noColumnWithName "zz") ∧
     fromSerializable (.byName [("a", .scalar .i32 [0, 0, 0, 1])]) [⟨"a", .native .int⟩, ⟨"b", .native .int⟩]
       = .error (.valueMissingForColumn "b") := ⟨rfl, rfl, rfl, rfl, rfl⟩
+
+/-! ### batches -/
+
+private theorem bindBatch_ok : ∀ (ss : List (List Col)) (rs : List (List RVal)) (i : Nat) (svs : List SV),
+    bindBatch ss rs i = .ok svs →
+    ss.length = rs.length ∧ svs.length = ss.length ∧
+    ∀ (k : Nat) (cols : List Col) (vs : List RVal) (sv : SV), ss[k]? = some cols → rs[k]? = some vs → svs[k]? = some sv →
+      fromSerializable (.seq vs) cols = .ok sv
+  | [], [], _, svs, h => by
+    simp only [bindBatch, Except.ok.injEq] at h; subst h
+    exact ⟨rfl, rfl, by intro k cols vs sv hc; simp at hc⟩
+  | [], _ :: _, _, _, h => by simp [bindBatch] at h
+  | _ :: _, [], _, _, h => by simp [bindBatch] at h
+  | cols :: ss, vs :: rs, i, svs, h => by
+    rw [bindBatch] at h
+    cases hf : fromSerializable (.seq vs) cols with
+    | error e => simp [hf] at h
+    | ok sv =>
+      simp only [hf] at h
+      cases hb : bindBatch ss rs (i + 1) with
+      | error e => simp [hb] at h
+      | ok rest =>
+        simp only [hb, Except.ok.injEq] at h; subst h
+        obtain ⟨h1, h2, h3⟩ := bindBatch_ok ss rs (i + 1) rest hb
+        refine ⟨by simp [h1], by simp [h2], ?_⟩
+        intro k cols' vs' sv' hc hv hs
+        cases k with
+        | zero =>
+          simp only [List.getElem?_cons_zero, Option.some.injEq] at hc hv hs
+          subst hc hv hs; exact hf
+        | succ k => exact h3 k cols' vs' sv' (by simpa using hc) (by simpa using hv) (by simpa using hs)
+
+/-- **A batch bind that succeeds**: as many value lists as statements, and EVERY value list was bound against ITS OWN
+statement's bind markers (not its neighbour's): it has that statement's number of values, every value fits that
+statement's column type, and the cells written for it are counted correctly. -/
+theorem batch_bind_ok (stmts : List (List Col)) (rows : List (List RVal)) (svs : List SV)
+    (h : bindBatch stmts rows 0 = .ok svs) :
+    stmts.length = rows.length ∧ svs.length = stmts.length ∧
+    ∀ (k : Nat) (cols : List Col) (vs : List RVal) (sv : SV), stmts[k]? = some cols → rows[k]? = some vs → svs[k]? = some sv →
+      vs.length = cols.length ∧ (∀ p, p ∈ cols.zip vs → fits p.1.ty p.2 = true) ∧ Inv sv ∧ sv.count = cols.length := by
+  obtain ⟨h1, h2, h3⟩ := bindBatch_ok stmts rows 0 svs h
+  exact ⟨h1, h2, fun k cols vs sv hc hv hs => bind_positional_ok vs cols sv (h3 k cols vs sv hc hv hs)⟩
+
+/-- **A batch with a misfitting value anywhere is refused as a whole**: no request is built — not even the statements
+bound before the failing one survive. -/
+theorem batch_mismatch_rejected (stmts : List (List Col)) (rows : List (List RVal)) (k : Nat) (cols : List Col)
+    (vs : List RVal) (p : Col × RVal) (hc : stmts[k]? = some cols) (hv : rows[k]? = some vs)
+    (hp : p ∈ cols.zip vs) (hm : fits p.1.ty p.2 = false) : ∃ e, bindBatch stmts rows 0 = .error e := by
+  cases h : bindBatch stmts rows 0 with
+  | error e => exact ⟨e, rfl⟩
+  | ok svs =>
+    exfalso
+    obtain ⟨h1, h2, h3⟩ := batch_bind_ok stmts rows svs h
+    have hk : k < svs.length := by
+      rw [h2]; exact (List.getElem?_eq_some_iff.mp hc).1
+    obtain ⟨sv, hsv⟩ : ∃ sv, svs[k]? = some sv := ⟨svs[k], by simp [hk]⟩
+    have := (h3 k cols vs sv hc hv hsv).2.1 p hp
+    rw [hm] at this; cases this
+
+/-- A different number of value lists and statements is refused. -/
+theorem batch_counts_mismatch_rejected (stmts : List (List Col)) (rows : List (List RVal))
+    (h : stmts.length ≠ rows.length) : ∃ e, bindBatch stmts rows 0 = .error e := by
+  cases hb : bindBatch stmts rows 0 with
+  | error e => exact ⟨e, rfl⟩
+  | ok svs => exact absurd (batch_bind_ok stmts rows svs hb).1 h
+
+/-- Non-vacuity, the seeded shape: two statements with different bind markers; swapping the value lists is refused. -/
+example :
+    (bindBatch [[⟨"a", .native .int⟩], [⟨"b", .native .text⟩]] [[.scalar .i32 [0, 0, 0, 1]], [.scalar .str [97]]] 0).isOk = true ∧
+    bindBatch [[⟨"a", .native .int⟩], [⟨"b", .native .text⟩]] [[.scalar .str [97]], [.scalar .i32 [0, 0, 0, 1]]] 0
+      = .error (.stmt 0 (.column "a" ⟨[], .mismatchedType⟩)) ∧
+    bindBatch [[⟨"a", .native .int⟩], [⟨"b", .native .text⟩]] [[.scalar .i32 [0, 0, 0, 1]], [.scalar .i32 [0, 0, 0, 1]]] 0
+      = .error (.stmt 1 (.column "b" ⟨[], .mismatchedType⟩)) := ⟨rfl, rfl, rfl⟩
 
 /-! ### `new_from_frame` -/
 
